@@ -861,15 +861,17 @@ class Time(object):
         try:
             parts = s.split('.')
             base_time = time.strptime(parts[0], "%H:%M:%S")
-            self.nanosecond_time = (base_time.tm_hour * Time.HOUR +
-                                    base_time.tm_min * Time.MINUTE +
-                                    base_time.tm_sec * Time.SECOND)
+            nanosecond_time = (base_time.tm_hour * Time.HOUR +
+                               base_time.tm_min * Time.MINUTE +
+                               base_time.tm_sec * Time.SECOND)
 
             if len(parts) > 1:
                 # right pad to 9 digits
                 nano_time_str = parts[1] + "0" * (9 - len(parts[1]))
-                self.nanosecond_time += int(nano_time_str)
+                nanosecond_time += int(nano_time_str)
 
+            # the same range check as for an integer value (strptime admits leap seconds 60 and 61)
+            self._from_timestamp(nanosecond_time)
         except ValueError:
             raise ValueError("can't interpret %r as a time" % (s,))
 
